@@ -429,8 +429,10 @@ func runExec(t *testing.T, sc *scenario, prefix []int) *verifmc.ExecResult {
 		for _, a := range x.act {
 			s.Go(a.name, a.run)
 		}
+		// Submitters come first in the canonical order: the default schedule lets
+		// every submitter reach its pool before the next round starts.
 		for i, specs := range sc.subs {
-			s.Go(fmt.Sprintf("sub%d", i), func() { x.submitter(i, specs) })
+			s.GoPrio(fmt.Sprintf("sub%d", i), 1, func() { x.submitter(i, specs) })
 		}
 		s.Run()
 		s.Drain()
